@@ -17,11 +17,9 @@ theorem forceFree_saved_head : forceFreeLiveHead = false := rfl
 theorem lineCount_assert_le : assertLineCountStrict = false := rfl
 
 theorem CoreV.of_dev_eq {cfg : Cfg} {d d' : Dev} {vs : List CV} (h : CoreV cfg d vs) (hq : d'.q = d.q)
-    (hf : d'.free = d.free) (ha : d'.allocated = d.allocated) (ho : d'.opened = d.opened)
-    (hm : d'.maxLines = d.maxLines) (hac : d'.active = d.active) : CoreV cfg d' vs := by
-  refine ⟨by rw [hq]; exact h.q, fun v hv => (h.pc v hv).congr_dev hq (fun hh => by rw [ho]; exact hh), ?_, ?_, ?_⟩
+    (hf : d'.free = d.free) (ha : d'.allocated = d.allocated) (ho : d'.opened = d.opened) : CoreV cfg d' vs := by
+  refine ⟨by rw [hq]; exact h.q, fun v hv => (h.pc v hv).congr_dev hq (fun hh => by rw [ho]; exact hh), ?_, ?_⟩
   · rw [hq, hf, ha]; exact h.alloc
-  · intro hh; rw [hm, hac]; exact h.lines (by rw [← ho]; exact hh)
   · intro hh; rw [hq, hf]; exact h.depth (by rw [← ho]; exact hh)
 
 theorem unionV_map {vs : List CV} {g : CV → CV} (hg : ∀ v, contrib (g v) = contrib v) : unionV (vs.map g) = unionV vs := by
@@ -33,16 +31,18 @@ theorem unionV_map {vs : List CV} {g : CV → CV} (hg : ∀ v, contrib (g v) = c
 
 theorem settledV_map {cfg : Cfg} {d d' : Dev} {vs : List CV} {g : CV → CV} (h : SettledV cfg d vs)
     (hg : ∀ v, (g v).state = v.state ∧ (g v).services = v.services ∧ (g v).allServices = v.allServices)
-    (ho : d'.opened = d.opened) (ha : d'.allServices = d.allServices) : SettledV cfg d' (vs.map g) := by
+    (ho : d'.opened = d.opened) (ha : d'.allServices = d.allServices)
+    (hm : d'.maxLines = d.maxLines := by rfl) (hac : d'.active = d.active := by rfl) : SettledV cfg d' (vs.map g) := by
   have hc : ∀ v, contrib (g v) = contrib v := by
     intro v; obtain ⟨h1, _, h3⟩ := hg v; unfold contrib; rw [h1, h3]
-  refine ⟨?_, ?_, ?_⟩
+  refine ⟨?_, ?_, ?_, ?_⟩
   · intro u hu hf
     obtain ⟨v, hv, rfl⟩ := List.mem_map.mp hu
     obtain ⟨h1, h2, h3⟩ := hg v
     rw [h2, h3]; exact h.gs v hv (by rw [← h1]; exact hf)
   · intro hh; rw [unionV_map hc]; exact h.os (by rw [← ho]; exact hh)
   · intro hh; rw [unionV_map hc, ha]; exact h.un (by rw [← ho]; exact hh)
+  · intro hh; rw [hm, hac]; exact h.lines (by rw [← ho]; exact hh)
 
 /-! ## overflow -/
 
@@ -118,7 +118,7 @@ theorem coreV_push {cfg : Cfg} {d : Dev} {vs : List CV} (fr : Frame) (h : CoreV 
     rw [List.getD_eq_getElem?_getD, List.getElem?_map, hv] at hp ⊢
     exact (h.pc _ (List.getElem_mem hi')).sub hp
   have hq := QInv_push (vs.map CV.subscribed) fr h.q (by simp) hsub (by omega)
-  refine ⟨?_, ?_, ?_, h.lines, ?_⟩
+  refine ⟨?_, ?_, ?_, ?_⟩
   · show QInv _ _
     rw [pushV_backlog]; exact hq
   · intro u hu
@@ -208,7 +208,7 @@ theorem forwardData_ok {cfg : Cfg} {s : State} (h : Core cfg s) (hs : Settled cf
     | cons fr rest =>
       simp only
       -- the device returns at most count[0]+count[1] lines: the assertion holds
-      have hml := hc1.lines ho1
+      have hml := hs1.lines ho1
       have hlen : (fr.lines.take (if fr.full = true then cfg.count s1.dev.active else cfg.count s1.dev.active - 1)).length
           ≤ s1.dev.maxLines := by
         rw [hml]
@@ -224,7 +224,7 @@ theorem forwardData_ok {cfg : Cfg} {s : State} (h : Core cfg s) (hs : Settled cf
       simp only [Bool.false_eq_true, if_false]
       -- state after the read
       have hc2 : Core cfg { s1 with dev := { s1.dev with pend := rest }, log := s1.log ++ [.read fr.seq] } := by
-        unfold Core; exact hc1.of_dev_eq rfl rfl rfl rfl rfl rfl
+        unfold Core; exact hc1.of_dev_eq rfl rfl rfl rfl
       have hs2 : Settled cfg { s1 with dev := { s1.dev with pend := rest }, log := s1.log ++ [.read fr.seq] } := by
         unfold Settled; exact hs1.congr_dev rfl rfl
       by_cases hn : s1.clients.countP (·.subscribed) = 0
